@@ -28,6 +28,9 @@ func runC17(w *World, r *Report) {
 	r.Borrow(w, runC12, map[string]string{"R1": "R2", "R2": "R2"})
 	hrRetryCounterStore(w, r, "R1")
 	hrFlowContextGetterIsPure(w, r, "R1")
+	hrDuplicateEdgeByEquality(w, r, "R1")
+	hrCycleCheckSkippedOnlyWithoutRoot(w, r, "R1")
+	hrNewResponseKeepsIdentity(w, r, "R1")
 	// in flows mode the retry conditions are the filter of the flow that holds the processor (C03.R1, C03.R4)
 	r.Borrow(w, runC03, map[string]string{"R1": "R1", "R4": "R1"})
 	la := NewLockAn(w)
